@@ -2,7 +2,7 @@
    the tree the encoder writes is a well-formed document tree of the tag getTagType selected, and the kind
    switch of the decoder turns it into canon t v. *)
 From Coq Require Import List Arith NArith ZArith Lia Bool ZifyN ZifyNat ZifyBool.
-From GoMC Require Import Base.Bytes Base.Dec Gen.Consts Model.C01 Model.C02 Proofs.C01 Proofs.C01_dec.
+From GoMC Require Import Base.Bytes Base.Dec Gen.Consts Model.C01 Model.C02 Proofs.C01 Proofs.C01_dec Proofs.C02_dec.
 Import ListNotations.
 Open Scope N_scope.
 Ltac Zify.zify_post_hook ::= Z.div_mod_to_equations.
@@ -427,4 +427,107 @@ Proof.
   destruct (seq_core e l tr IH Hd H2 H1 H3 He) as (W & T & L & U).
   rewrite unm_nonptr by reflexivity. repeat split; auto.
   cbn [canon]. apply array_of_slice; [congruence|exact U].
+Qed.
+
+(* ---------- association lists ---------- *)
+Lemma beqb_spec a : forall b, bytes_eqb a b = true <-> a = b.
+Proof.
+  induction a as [|x a IH]; intros [|y b]; cbn [bytes_eqb]; split; intros H; try discriminate; auto.
+  - apply andb_true_iff in H. destruct H as [H1 H2]. apply N.eqb_eq in H1. apply IH in H2. congruence.
+  - injection H as -> ->. rewrite N.eqb_refl. cbn. now apply IH.
+Qed.
+Lemma beqb_refl a : bytes_eqb a a = true.
+Proof. now apply beqb_spec. Qed.
+Lemma assoc_app {V} k (a b : list (list N * V)) :
+  assoc k (a ++ b) = match assoc k a with Some v => Some v | None => assoc k b end.
+Proof.
+  induction a as [|[k' v] a IH]; cbn [app assoc]; [reflexivity|]. destruct (bytes_eqb k k'); auto.
+Qed.
+Lemma map_set_fresh {V} k (y : V) acc : assoc k acc = None -> map_set k y acc = acc ++ [(k, y)].
+Proof.
+  induction acc as [|[k' v] acc IH]; cbn [assoc map_set app]; [reflexivity|].
+  destruct (bytes_eqb k k'); [discriminate|]. intros H. now rewrite IH.
+Qed.
+
+(* ---------- maps ---------- *)
+Lemma map_loop_cons f kx r acc :
+  map_loop f (kx :: r) acc = match f (snd kx) with
+                             | UOk y => map_loop f r (map_set (fst kx) y acc)
+                             | UErr => Some None | UOut => None
+                             end.
+Proof. reflexivity. Qed.
+
+Lemma map_loop_spec e : forall m ts,
+  Forall2 (fun kv t => unm t e = UOk (canon e (snd kv))) m ts ->
+  forall acc, keys_nodup m = true -> (forall k, assoc k acc <> None -> assoc k m = None) ->
+  map_loop (fun x => unm x e) (combine (map fst m) ts) acc
+  = Some (Some (acc ++ map (fun kv => (fst kv, canon e (snd kv))) m)).
+Proof.
+  induction 1 as [|[k x] t m ts Hx Hm IH]; intros acc Hnd Hdis.
+  - cbn. now rewrite app_nil_r.
+  - cbn [map combine fst snd]. rewrite map_loop_cons. cbn [fst snd] in *. rewrite Hx.
+    cbn [keys_nodup] in Hnd. destruct (assoc k m) eqn:Ek; [discriminate|].
+    assert (Ea : assoc k acc = None).
+    { destruct (assoc k acc) eqn:E; [|reflexivity]. exfalso.
+      assert (assoc k ((k, x) :: m) = None) as C by (apply Hdis; congruence).
+      cbn [assoc] in C. rewrite beqb_refl in C. discriminate. }
+    rewrite map_set_fresh by exact Ea. rewrite IH; auto.
+    + rewrite <- app_assoc. reflexivity.
+    + intros k' Hk'. rewrite assoc_app in Hk'. destruct (assoc k' acc) eqn:E.
+      * assert (assoc k' ((k, x) :: m) = None) as C by (apply Hdis; congruence).
+        cbn [assoc] in C. destruct (bytes_eqb k' k); [discriminate|exact C].
+      * cbn [assoc] in Hk'. destruct (bytes_eqb k' k) eqn:Eb; [|congruence].
+        apply beqb_spec in Eb. subst k'. exact Ek.
+Qed.
+
+Lemma rt_map e : rt_ok e -> rt_ok (YMap e).
+Proof.
+  intros IH v tr Ht He. destruct v as [| | | | | |m| | | | |]; try discriminate.
+  cbn [has_type] in Ht. apply andb_true_iff in Ht. destruct Ht as [Hnd Hall].
+  cbn [enc] in He.
+  destruct (tmap _ m) as [[ts|]|] eqn:Em; try discriminate. injection He as <-. apply tmap_ok in Em.
+  rewrite unm_nonptr by reflexivity.
+  assert (P : forallb (fun kv => name_ok (fst kv) && wfb (snd kv)) (combine (map fst m) ts) = true /\
+              Forall2 (fun kv t => unm t e = UOk (canon e (snd kv))) m ts).
+  { clear Hnd. induction Em as [|[k x] t m ts Hx Hm IHm]; [split; [reflexivity|constructor]|].
+    cbn [forallb] in Hall. rewrite !andb_true_iff in Hall. destruct Hall as [[Hk Hx1] Hall].
+    cbn [fst snd] in *. destruct (get_tag e x =? idEnd); [discriminate|].
+    unfold name_too_long in Hx. destruct (N.ltb_spec 32767 (lenN k)) as [|Hlen]; [discriminate|].
+    destruct (IH x t Hx1 Hx) as (W & T & U). destruct (IHm Hall) as [I1 I2].
+    split; [|constructor; auto]. cbn [map combine forallb fst snd]. rewrite W, I1.
+    unfold name_ok. rewrite Hk. replace (lenN k <? 2 ^ 15) with true; [reflexivity|].
+    symmetry. apply N.ltb_lt. change (2 ^ 15) with 32768. lia. }
+  destruct P as [P1 P2]. repeat split; auto.
+  cbn [unm_base canon]. change (fun x : tag => via (unm_base x (ptr_base e)) e) with (fun x : tag => unm x e).
+  rewrite (map_loop_spec e m ts P2 [] Hnd); [reflexivity|]. intros k H. cbn in H. congruence.
+Qed.
+
+(* ---------- Marshal then Unmarshal ---------- *)
+Lemma name_ok_of name : all_bytesb name = true -> name_too_long name = false -> name_ok name = true.
+Proof.
+  intros H1 H2. unfold name_ok, name_too_long in *. rewrite H1. cbn [andb].
+  apply N.ltb_lt. apply N.ltb_ge in H2. change (2 ^ 15) with 32768. lia.
+Qed.
+
+Theorem roundtrip_bytes f byval name t v bs :
+  rt_ok t -> has_type t v = true -> all_bytesb name = true ->
+  marshal f byval name t v = MOk bs ->
+  exists tr, wf tr /\ bs = doc f name tr /\ tag_id tr = get_tag t v /\
+             unmarshal f t bs = DOk (root_name f name) (canon t v) [].
+Proof.
+  intros Hrt Ht Hn Hm. unfold marshal in Hm.
+  assert (Hm' : (if match f with File => name_too_long name | Net => false end then MErr
+                 else match enc t v with TOk tr => MOk (doc f name tr) | TErr => MErr | TPanic => MPanic end) = MOk bs).
+  { destruct t; try exact Hm. destruct v as [| | | | | | | | |o| |]; try exact Hm. destruct o; [exact Hm|].
+    destruct byval; discriminate. }
+  clear Hm. destruct (enc t v) as [tr| |] eqn:He.
+  2,3: destruct f; try destruct (name_too_long name); discriminate.
+  destruct (Hrt v tr Ht He) as (W & T & U).
+  assert (Hbs : bs = doc f name tr /\ (f = File -> name_too_long name = false)).
+  { destruct f; [destruct (name_too_long name) eqn:E; [discriminate|]|]; injection Hm' as <-; split; auto; discriminate. }
+  destruct Hbs as [-> Hnl]. exists tr. repeat split; auto.
+  destruct f.
+  - rewrite unmarshal_doc; [rewrite U; reflexivity|exact W|]. apply name_ok_of; auto.
+  - (* network format: the name is not written; any name gives the same document *)
+    change (doc Net name tr) with (doc Net [] tr). rewrite unmarshal_doc; [rewrite U; reflexivity|exact W|reflexivity].
 Qed.
